@@ -234,6 +234,9 @@ def _tview(rng, t, p=0.25):
     return v
 
 
+_UNDER_F64 = False
+
+
 def run_case(case, rec, mon=None):
     import torch
     from pydrobert.speech import torch as T, pre as PRE, post as POST
@@ -249,6 +252,21 @@ def run_case(case, rec, mon=None):
     rng = rng_for(case["seed"], "C14", case["idx"], 1)
     kind = case["kind"]
     torch.set_num_threads(1)
+    global _UNDER_F64
+    if kind == "stft" and case["idx"] % 8 == 5 and not _UNDER_F64:
+        # a process-wide setting a user may change: the default floating type of new tensors
+        old_default = torch.get_default_dtype()
+        torch.set_default_dtype(torch.float64)
+        rec.count("cases_under_torch_default_dtype_float64")
+        _UNDER_F64 = True
+        try:
+            return run_case(case, rec, mon)
+        finally:
+            _UNDER_F64 = False
+            torch.set_default_dtype(old_default)
+            if own:
+                monitor.report(rec)
+                monitor.detach_all()
     if kind == "stft":
         cfg = case["cfg"]
         try:
